@@ -193,6 +193,22 @@ partial def parseGTy : List Char → Option (GTy × List Char)
       | [.flat t] => pure (.flat (.vec t), r')
       | [g] => pure (.vec g, r')
       | _ => none
+  | 'u' :: '(' :: r => do
+      let (gs, r') ← parseGTys r
+      match gs with
+      | [.flat t] => pure (.flat (.uptr t), r')
+      | [g] => pure (.uptr g, r')
+      | _ => none
+  | 'a' :: r => do
+      let (d, r1) := takeDigits r
+      match r1 with
+      | '(' :: r2 =>
+        let (gs, r') ← parseGTys r2
+        match gs with
+        | [.flat t] => pure (.flat (.arr (natOf d) t), r')
+        | [g] => pure (.arr (natOf d) g, r')
+        | _ => none
+      | _ => none
   | 'M' :: '(' :: r => do
       let (gs, r') ← parseGTys r
       match gs with
@@ -245,7 +261,14 @@ partial def parseG : GTy → List Char → Option (GVal × List Char)
       match r1 with
       | ')' :: r2 => pure (.some x, r2)
       | _ => none
+  | .uptr _, 'n' :: r => some (.null, r)
+  | .uptr t, 'j' :: '(' :: r => do
+      let (x, r1) ← parseG t r
+      match r1 with
+      | ')' :: r2 => pure (.some x, r2)
+      | _ => none
   | .vec t, '[' :: r => do let (vs, r') ← parseGList t r; pure (.list vs, r')
+  | .arr _ t, '[' :: r => do let (vs, r') ← parseGList t r; pure (.list vs, r')
   | .map _ k w, '[' :: r => do let (vs, r') ← parseGEntries k w r; pure (.list vs, r')
   | .struct ts, '[' :: r => do let (vs, r') ← parseGMembers ts r; pure (.list vs, r')
   | _, _ => none
@@ -304,7 +327,9 @@ partial def showG : GTy → GVal → List Nat → String × List Nat
     let (s, tab2) := showG t x tab1
     ("&" ++ toString l ++ "(" ++ s ++ ")", tab2)
   | .opt t, .some x, tab => let (s, tab1) := showG t x tab; ("j(" ++ s ++ ")", tab1)
+  | .uptr t, .some x, tab => let (s, tab1) := showG t x tab; ("j(" ++ s ++ ")", tab1)
   | .vec t, .list vs, tab => let (ss, tab1) := showGList t vs tab; ("[" ++ ",".intercalate ss ++ "]", tab1)
+  | .arr _ t, .list vs, tab => let (ss, tab1) := showGList t vs tab; ("[" ++ ",".intercalate ss ++ "]", tab1)
   | .map o k w, .list vs, tab =>
     let keyed := vs.map fun e => (showCanon k (gflat (gfst e)), gsnd e)
     let ordered := if o then keyed else keyed.foldl (fun acc e => insertSorted e acc) []
